@@ -83,8 +83,20 @@ func (w *World) errSourcesOf(v ssa.Value, memo map[*ssa.Function][]errSrc, seen 
 		}
 		if !w.InLib(f) {
 			switch f.String() {
-			case "errors.New", "encoding/binary.Read":
+			case "encoding/binary.Read":
 				return []errSrc{{what: f.String(), at: x, ok: true}}
+			case "errors.New":
+				// (round 6) the only error the scan may make up itself is "exhausted": it is
+				// constructed on the at-floor arm of a test of the cursor against the floor
+				for _, g := range guardsOf(x.Block()) {
+					if g.If == nil {
+						continue
+					}
+					if arm, isFloor := w.floorTest(g.If); isFloor && (arm == 0) == g.Pol {
+						return []errSrc{{what: "errors.New on the scan-exhausted arm", at: x, ok: true}}
+					}
+				}
+				return []errSrc{{what: "an error made with errors.New outside the scan-exhausted arm (it can only describe the candidate)", at: x}}
 			}
 			return []errSrc{{what: "the result of " + f.String(), at: x}}
 		}
@@ -187,6 +199,10 @@ func init() {
 			Old: "\t\t\treturn s.validateAndSetCollections(data, length) == nil, nil\n\t\t}\n",
 			New: "\t\t\treturn s.validateAndSetCollections(data, length) == nil, nil\n\t\t}\n\t\treturn false, fmt.Errorf(\"bad start magic at %v\", offset)\n",
 			Rule: "O5r", Why: "a candidate with a wrong start magic aborts recovery"},
+		{ID: "r6-scan-aborts-with-errors-new", Props: []string{"C03", "C08"}, File: "store.go",
+			Old: "\t\t\treturn s.validateAndSetCollections(data, length) == nil, nil\n\t\t}\n",
+			New: "\t\t\treturn s.validateAndSetCollections(data, length) == nil, nil\n\t\t}\n\t\treturn false, errors.New(\"bad start magic\")\n",
+			Rule: "O5r", Why: "a candidate with a wrong start magic aborts recovery with a plain errors.New"},
 		{ID: "r5-scan-validator-bool", Props: []string{"C03", "C08"}, File: "store.go", Preserving: true,
 			Old: "\t\t\treturn s.validateAndSetCollections(data, length) == nil, nil\n",
 			New: "\t\t\tif err := s.validateAndSetCollections(data, length); err != nil {\n\t\t\t\treturn false, nil\n\t\t\t}\n\t\t\treturn true, nil\n",
